@@ -592,7 +592,7 @@ func C14(c *core.Ctx) {
 	if fn := c.Fn("R14.3", "std/encoding", "", "componentFromStrInto"); fn != nil {
 		var accepts []ssa.Instruction
 		core.Instrs(fn, func(in ssa.Instruction) {
-			if r, ok := in.(*ssa.Return); ok && core.IsNilConst(r.Results[0]) {
+			if r, ok := in.(*ssa.Return); ok && len(r.Results) > 0 && core.IsNilConst(r.Results[0]) {
 				accepts = append(accepts, r)
 			}
 		})
@@ -669,8 +669,31 @@ func C14(c *core.Ctx) {
 // index value is returned.
 func elemIndexOf(v, container ssa.Value) ssa.Value {
 	v = core.Strip(v)
+	// container itself, or a prefix container[:k] of it (`for i, c := range n[:common]`):
+	// element i of the prefix is element i of the container
+	isCont := func(x ssa.Value) bool {
+		x = core.Strip(x)
+		if x == container {
+			return true
+		}
+		if sl, ok := x.(*ssa.Slice); ok && core.Strip(sl.X) == container {
+			if sl.Low == nil {
+				return true
+			}
+			if k, isC := core.ConstInt(sl.Low); isC && k == 0 {
+				return true
+			}
+		}
+		return false
+	}
 	if u, ok := v.(*ssa.UnOp); ok && u.Op == token.MUL {
-		if ia, ok := u.X.(*ssa.IndexAddr); ok && core.Strip(ia.X) == container {
+		// a local copy of the element (range value variable whose address is taken)
+		if al, isAl := u.X.(*ssa.Alloc); isAl {
+			if sv, once := core.StoredOnce(al); once {
+				return elemIndexOf(sv, container)
+			}
+		}
+		if ia, ok := u.X.(*ssa.IndexAddr); ok && isCont(ia.X) {
 			return core.StripConv(ia.Index)
 		}
 	}
